@@ -198,7 +198,55 @@ pub fn streams(rng: &mut Rng, n_each: usize, max_len: usize) -> Vec<Stream> {
     v
 }
 
+/// the filter readers standing alone (as users of the public `BCJReader` / `DeltaReader` meet them) over a source
+/// that fails exactly ONE read call (a later call succeeds again): the error must reach the caller, whatever the
+/// size of the caller's buffer, and short reads / Interrupted must not change the bytes
+fn run_filter_readers(rep: &mut Report, rng: &mut Rng, thorough: bool) {
+    let archs = ["x86", "ppc", "ia64", "arm", "armthumb", "sparc", "arm64", "riscv", "delta"];
+    for (ai, arch) in archs.iter().enumerate() {
+        let mut r = rng.fork();
+        let len = r.range(9_000, 30_000) as usize;
+        let data = gen_data(&mut r, if ai % 2 == 0 { "code" } else { "mixed" }, len);
+        let open = |src: FaultReader| -> Box<dyn Read> {
+            if *arch == "delta" { Box::new(filter::delta::DeltaReader::new(src, 7)) } else { Box::new(crate::part::new_bcj_reader(arch, src, 0)) }
+        };
+        let clean = guard(|| read_all_sched(&mut open(FaultReader { data: data.clone(), pos: 0, script: vec![], calls: 0, fail_at: None }), &[65536], len * 2));
+        let Outcome::Ok(expect) = clean else {
+            rep.fail("filter-reader-failed", &clean.describe(), json!({"filter": arch}));
+            continue;
+        };
+        rep.count("fmt.filter-reader");
+        for &k in if thorough { &[0usize, 1, 2, 3, 4, 5, 7][..] } else { &[0usize, 1, 2, 4][..] } {
+            for kind in [ErrorKind::Other, ErrorKind::TimedOut] {
+                for sched in [vec![65536usize], vec![777], vec![4096, 1]] {
+                    // short reads before the fault so that the failing call is not the first one inside a read()
+                    let script: Vec<Act> = (0..k + 3).map(|j| Act::Max(if j % 2 == 0 { 1500 } else { 700 })).collect();
+                    let src = FaultReader { data: data.clone(), pos: 0, script, calls: 0, fail_at: Some((k, kind)) };
+                    let o = guard(|| read_all_sched(&mut open(src), &sched, len * 2));
+                    rep.evaluations += 1;
+                    let detail = || json!({"filter": arch, "data_len": len, "fault": format!("one-shot {kind:?} at source read call {k}"), "caller_buffer": sched});
+                    match o {
+                        Outcome::Err(got, _) if got == kind => {}
+                        Outcome::Err(got, m) => rep.fail("fault-kind-changed:filter-reader", &format!("source error {kind:?} arrived as {got:?}: {m}"), detail()),
+                        Outcome::Ok(out) => rep.fail("fault-swallowed:filter-reader", &format!("the source's error was swallowed: the read succeeded with {} bytes ({})", out.len(), if out == expect { "the right ones" } else { "different from the fault-free run" }), detail()),
+                        Outcome::Panic(m) => rep.fail("fault-panic:filter-reader", &m, detail()),
+                    }
+                }
+            }
+        }
+        // short reads and Interrupted only: same bytes
+        let script: Vec<Act> = (0..400).map(|j| if j % 5 == 3 { Act::Interrupted } else { Act::Max(1 + (j * 37) % 900) }).collect();
+        let o = guard(|| read_all_sched(&mut open(FaultReader { data: data.clone(), pos: 0, script, calls: 0, fail_at: None }), &[5000, 3], len * 2));
+        match o {
+            Outcome::Ok(out) if out == expect => {}
+            other => rep.fail("short-read-changes-bytes:filter-reader", &other.describe(), json!({"filter": arch, "data_len": len})),
+        }
+        rep.case(format!("filter-reader:{arch}"), true, || json!({"filter": arch, "data_len": len}));
+    }
+}
+
 pub fn run(rep: &mut Report, rng: &mut Rng, thorough: bool) {
+    run_filter_readers(rep, &mut rng.fork(), thorough);
     let ss = streams(rng, if thorough { 12 } else { 3 }, if thorough { 4000 } else { 300 });
     for s in &ss {
         let cap = s.data.len() * 2 + 4096;
